@@ -872,10 +872,10 @@ class MemberAccessInstruction(Instruction):
         return self.__store
 
     def ReplaceUses(self, ref, newValue):
-        if self.__parent.Reference == ref:
-            self.__parent = newValue
+        if self.__variable.Reference == ref:
+            self.__variable = newValue
 
-        if self.__store and self.__store.Reference == newValue:
+        if self.__store and self.__store.Reference == ref:
             self.__store = newValue
 
     @property
@@ -1251,7 +1251,7 @@ class InstructionPrinter(Visitor):
         if mai.Store:
             self.__Print(
                 "fieldset",
-                self.__FormatReference(mai.Parent),
+                self.__FormatReference(mai.Variable),
                 mai.Member,
                 self.__FormatReference(mai.Store),
             )
@@ -1261,7 +1261,7 @@ class InstructionPrinter(Visitor):
                 "=",
                 "fieldget",
                 self.__FormatType(mai.Type),
-                self.__FormatReference(mai.Parent),
+                self.__FormatReference(mai.Variable),
                 mai.Member,
             )
 
